@@ -633,6 +633,16 @@ fn define_function(env: &mut PackageTypeEnv, diagnostics: &mut Diagnostics, func
             &format!("function {}", name),
         );
     }
+    // `main` of package Main (names of other packages are qualified) is called by the
+    // generated entry point without arguments
+    if name == "main" && (!params.is_empty() || !generics_tast.is_empty()) {
+        diagnostics.push(Diagnostic::new(
+            Stage::Typer,
+            Severity::Error,
+            "Function main is the entry point of the program: it takes no parameters and no type parameters"
+                .to_string(),
+        ));
+    }
     env.current_mut().value_env.funcs.insert(
         name,
         FnScheme {
